@@ -181,6 +181,16 @@ fn static_rank_ops<const N: usize>(ctx: &Ctx, shape: &[usize], cnt: &Cnt) {
             cnt.accepted.fetch_add(1, Ordering::Relaxed);
         }
     }
+    // get_array / set_array (unchecked element access behind an index check): every base index
+    // over 0..=size per axis (one past each bound included), every dim, M in {1, 2}; also on
+    // the left half of split_at_mut, whose storage is shared with the right half
+    for dim in 0..N {
+        for base in Odometer::new(&shape.iter().map(|&d| d + 2).collect::<Vec<_>>()) {
+            let b: [usize; N] = nd::<N>(&base);
+            array_access::<N, 1>(ctx, &mut t, shape, b, dim, cnt);
+            array_access::<N, 2>(ctx, &mut t, shape, b, dim, cnt);
+        }
+    }
     for axis in 0..=N {
         for mid in 0..=shape.get(axis).copied().unwrap_or(1) + 1 {
             cnt.evals.fetch_add(1, Ordering::Relaxed);
@@ -208,6 +218,54 @@ fn static_rank_ops<const N: usize>(ctx: &Ctx, shape: &[usize], cnt: &Cnt) {
                 }
             }));
         }
+    }
+}
+
+/// `get_array::<M>` / `set_array::<M>` with base index `b` along `dim`: when some index of
+/// the M-element run is out of range the call must panic; when it does not, the values
+/// read / the set of elements written must be exactly the run's.
+fn array_access<const N: usize, const M: usize>(ctx: &Ctx, t: &mut NdTensor<i32, N>, shape: &[usize], b: [usize; N], dim: usize, cnt: &Cnt) {
+    cnt.evals.fetch_add(2, Ordering::Relaxed);
+    let valid = (0..N).all(|d| if d == dim { b[d] + M <= shape[d] } else { b[d] < shape[d] });
+    let case = || json!({"via": "get_array/set_array", "shape": s(shape), "base": s(&b), "dim": dim, "M": M});
+    let strides: Vec<usize> = t.strides().to_vec();
+    let off = |idx: &[usize]| -> usize { idx.iter().zip(&strides).map(|(i, st)| i * st).sum() };
+    let before: Vec<i32> = t.data().unwrap().to_vec();
+    match vp_core::catch(|| t.get_array::<M>(b, dim)) {
+        Ok(vals) => {
+            if !valid {
+                ctx.violation("NdTensor::get_array returns data for a run with an out-of-range index".to_string(), case(), format!("returned {vals:?}"));
+            } else {
+                cnt.accepted.fetch_add(1, Ordering::Relaxed);
+                for k in 0..M {
+                    let mut i = b;
+                    i[dim] += k;
+                    if vals[k] != before[off(&i)] {
+                        ctx.violation("NdTensor::get_array returns the wrong elements".to_string(), case(), format!("{vals:?}"));
+                        break;
+                    }
+                }
+            }
+        }
+        Err(_) => {
+            if valid {
+                ctx.observe("NdTensor::get_array panics for an in-range run");
+            }
+        }
+    }
+    let r = vp_core::catch(std::panic::AssertUnwindSafe(|| t.set_array::<M>(b, dim, [-7i32; M])));
+    let after: Vec<i32> = t.data().unwrap().to_vec();
+    let changed: Vec<usize> = (0..after.len()).filter(|&i| after[i] != before[i]).collect();
+    let mut want: Vec<usize> = if valid && r.is_ok() { (0..M).map(|k| { let mut i = b; i[dim] += k; off(&i) }).collect() } else { vec![] };
+    want.sort();
+    if r.is_ok() && !valid {
+        ctx.violation("NdTensor::set_array accepts a run with an out-of-range index".to_string(), case(), format!("elements changed at offsets {changed:?}"));
+    } else if changed != want {
+        ctx.violation("NdTensor::set_array changes other elements than the run's".to_string(), case(), format!("changed {changed:?}, expected {want:?}"));
+    }
+    // restore
+    if let Some(d) = t.data_mut() {
+        d.copy_from_slice(&before);
     }
 }
 
@@ -452,7 +510,7 @@ pub fn run(ctx: Ctx) -> ! {
         "rule": "constructor calls over the full box (shape sizes x strides x storage length); non-trivial = calls that returned a tensor (each then validated in u128 and, when valid and small, fully accessed)",
         "samples": samples.take(),
         "exhaustive": true,
-        "box": format!("rank 0..=3, sizes {:?}, strides {:?}, storage 0..={max_storage}; ctors: Tensor/NdTensor try_from_data, from_data, from_data_with_strides (owned,&mut), from_slice_with_strides, from_storage_and_layout (view, view_mut), zeros(overflowing), has_capacity; static rank 1..3 over sizes 1..3: NdTensor::permuted / permuted_mut with every order in {{0..=N}}^N, split_at_mut(axis 0..=N, mid 0..=n+1)", s(&SIZES), s(&STRIDES)),
+        "box": format!("rank 0..=3, sizes {:?}, strides {:?}, storage 0..={max_storage}; ctors: Tensor/NdTensor try_from_data, from_data, from_data_with_strides (owned,&mut), from_slice_with_strides, from_storage_and_layout (view, view_mut), zeros(overflowing), has_capacity; static rank 1..3 over sizes 1..3: NdTensor::permuted / permuted_mut with every order in {{0..=N}}^N, split_at_mut(axis 0..=N, mid 0..=n+1), get_array/set_array with every base index over 0..=size+1 per axis x dim x M in {{1,2}}", s(&SIZES), s(&STRIDES)),
         "constructor_calls": evals,
         "accepted": accepted,
         "accepted_valid_and_fully_accessed": accessed,
